@@ -127,3 +127,92 @@ Definition C01_ke_agreement_statement {E Sc Pk Sk} (CS : Suite E Sc Pk Sk) : Pro
 Theorem C01_ke_agreement_at_each_of_the_20_suites : all_suites (fun _ _ _ _ CS => CurveLaws CS -> C01_ke_agreement_statement CS).
 Proof. apply at_the_20_suites_g. exact C01_ke_agreement. Qed.
 Print Assumptions C01_ke_agreement_at_each_of_the_20_suites.
+
+(* ---------------------------------------------------------------- every party on its own tape; over histories *)
+(* the main theorem with every step on a tape of its own (clients and servers have their own generators) *)
+Theorem C01_honest_login_agrees_on_independent_tapes :
+  forall E Sc Pk Sk (CS : Suite E Sc Pk Sk), HashLaws (hash CS) -> GroupLaws CS ->
+  forall tape setup t1 tr pw creg rq t2 cred rr tf ids ksf upload ek spk t3 tc clog ke1 t4 tv ctx slog ke2 t5 dbg,
+    ve CS (o_h2g (oprf CS) pw (dst_hash_to_group (oprf CS))) ->
+    server_setup_new CS tape = Ok (setup, t1) ->
+    client_registration_start CS tr pw = Ok (creg, rq, t2) ->
+    server_registration_start CS setup rq cred = Ok rr ->
+    client_registration_finish CS creg tf pw rr ids ksf = Ok (upload, ek, spk, t3) ->
+    client_login_start CS tc pw = Ok (clog, ke1, t4) ->
+    server_login_start CS (private_key_ops (ke CS)) tv setup (Some (server_registration_finish upload)) ke1 cred ctx ids
+      = Ok (slog, ke2, t5, dbg) ->
+    o_eqb (oprf CS) (cq_blinded ke1) (cr_eval ke2) = false ->
+    exists ke3 sk dbg',
+      client_login_finish CS clog pw ke2 ctx ids ksf = Ok (ke3, sk, ek, spk, dbg') /\
+      server_login_finish CS slog ke3 = Ok sk /\
+      spk = kp_pk (ss_keypair setup) /\ kp_pk (ss_keypair setup) = k_pub (ke CS) (kp_sk (ss_keypair setup)).
+Proof. exact @honest_login_agrees_any_tapes. Qed.
+Print Assumptions C01_honest_login_agrees_on_independent_tapes.
+
+(* in ANY world the adversary can reach (Model/World.v: it schedules all parties and chooses every delivered message; one
+   shared tape), an honestly routed login completes: if client session i belongs to a user registered under the world's
+   setup and server session j was started for that user's record on i's own request, then j's response makes the client
+   accept with the registration's export key and server key, and the client's finalization makes the server accept with the
+   same session key - whatever else happened before *)
+From Coq Require Import Arith.
+From OKE Require Import World WorldCrash CrashInv HonestWorld.
+Theorem C01_honest_delivery_completes_in_any_reachable_world :
+  forall E Sc Pk Sk (CS : Suite E Sc Pk Sk), HashLaws (hash CS) -> GroupLaws CS ->
+  forall tape0 setup rest0 tape ops tr pw creg rq t2 cred rr tf ids upload ek spk t3 i c j s,
+    server_setup_new CS tape0 = Ok (setup, rest0) ->
+    (forall pw', In (OClientStart pw') ops -> good_pw CS pw') ->
+    client_registration_start CS tr pw = Ok (creg, rq, t2) ->
+    server_registration_start CS setup rq cred = Ok rr ->
+    client_registration_finish CS creg tf pw rr ids None = Ok (upload, ek, spk, t3) ->
+    let w := run CS (@init E Sc Pk Sk setup tape) ops in
+    nth_error (w_cli w) i = Some c -> cs_pw c = pw ->
+    nth_error (w_srv w) j = Some s ->
+    sv_file s = Some (server_registration_finish upload) -> sv_cred s = cred -> sv_ids s = ids ->
+    sv_rq s = cl_request (cs_state c) ->
+    o_eqb (oprf CS) (cq_blinded (sv_rq s)) (cr_eval (sv_resp s)) = false ->
+    exists fin key dbg,
+      client_login_finish CS (cs_state c) pw (sv_resp s) (sv_ctx s) ids None = Ok (fin, key, ek, spk, dbg) /\
+      server_login_finish CS (sv_state s) fin = Ok key.
+Proof. exact @honest_delivery_completes. Qed.
+Print Assumptions C01_honest_delivery_completes_in_any_reachable_world.
+
+(* the two theorems above at the 20 suites *)
+
+Definition C01_honest_login_agrees_on_independent_tapes_statement {E Sc Pk Sk} (CS : Suite E Sc Pk Sk) : Prop :=
+  forall tape setup t1 tr pw creg rq t2 cred rr tf ids ksf upload ek spk t3 tc clog ke1 t4 tv ctx slog ke2 t5 dbg,
+    ve CS (o_h2g (oprf CS) pw (dst_hash_to_group (oprf CS))) ->
+    server_setup_new CS tape = Ok (setup, t1) ->
+    client_registration_start CS tr pw = Ok (creg, rq, t2) ->
+    server_registration_start CS setup rq cred = Ok rr ->
+    client_registration_finish CS creg tf pw rr ids ksf = Ok (upload, ek, spk, t3) ->
+    client_login_start CS tc pw = Ok (clog, ke1, t4) ->
+    server_login_start CS (private_key_ops (ke CS)) tv setup (Some (server_registration_finish upload)) ke1 cred ctx ids
+      = Ok (slog, ke2, t5, dbg) ->
+    o_eqb (oprf CS) (cq_blinded ke1) (cr_eval ke2) = false ->
+    exists ke3 sk dbg',
+      client_login_finish CS clog pw ke2 ctx ids ksf = Ok (ke3, sk, ek, spk, dbg') /\
+      server_login_finish CS slog ke3 = Ok sk /\
+      spk = kp_pk (ss_keypair setup) /\ kp_pk (ss_keypair setup) = k_pub (ke CS) (kp_sk (ss_keypair setup)).
+Theorem C01_honest_login_agrees_on_independent_tapes_at_each_of_the_20_suites : all_suites (fun _ _ _ _ CS => CurveLaws CS -> C01_honest_login_agrees_on_independent_tapes_statement CS).
+Proof. apply at_the_20_suites. exact C01_honest_login_agrees_on_independent_tapes. Qed.
+Print Assumptions C01_honest_login_agrees_on_independent_tapes_at_each_of_the_20_suites.
+
+Definition C01_honest_delivery_completes_in_any_reachable_world_statement {E Sc Pk Sk} (CS : Suite E Sc Pk Sk) : Prop :=
+  forall tape0 setup rest0 tape ops tr pw creg rq t2 cred rr tf ids upload ek spk t3 i c j s,
+    server_setup_new CS tape0 = Ok (setup, rest0) ->
+    (forall pw', In (OClientStart pw') ops -> good_pw CS pw') ->
+    client_registration_start CS tr pw = Ok (creg, rq, t2) ->
+    server_registration_start CS setup rq cred = Ok rr ->
+    client_registration_finish CS creg tf pw rr ids None = Ok (upload, ek, spk, t3) ->
+    let w := run CS (@init E Sc Pk Sk setup tape) ops in
+    nth_error (w_cli w) i = Some c -> cs_pw c = pw ->
+    nth_error (w_srv w) j = Some s ->
+    sv_file s = Some (server_registration_finish upload) -> sv_cred s = cred -> sv_ids s = ids ->
+    sv_rq s = cl_request (cs_state c) ->
+    o_eqb (oprf CS) (cq_blinded (sv_rq s)) (cr_eval (sv_resp s)) = false ->
+    exists fin key dbg,
+      client_login_finish CS (cs_state c) pw (sv_resp s) (sv_ctx s) ids None = Ok (fin, key, ek, spk, dbg) /\
+      server_login_finish CS (sv_state s) fin = Ok key.
+Theorem C01_honest_delivery_completes_in_any_reachable_world_at_each_of_the_20_suites : all_suites (fun _ _ _ _ CS => CurveLaws CS -> C01_honest_delivery_completes_in_any_reachable_world_statement CS).
+Proof. apply at_the_20_suites. exact C01_honest_delivery_completes_in_any_reachable_world. Qed.
+Print Assumptions C01_honest_delivery_completes_in_any_reachable_world_at_each_of_the_20_suites.
